@@ -248,6 +248,7 @@ class TimeDependentLinearPDE(LinearPDE):
         self.assemble_step(self.time_steps[0])
         u = np.empty((len(self.initial_condition), len(self.time_steps)))
         u[:, 0] = self.initial_condition
+        info = None # stays None if no linear system is solved (forward Euler, or no step to take)
 
         if self.method == 'forward_euler':
             for idx, t in enumerate(self.time_steps[:-1]):
@@ -255,7 +256,6 @@ class TimeDependentLinearPDE(LinearPDE):
                 self.assemble_step(t)
                 u_pre = u[:, idx]
                 u[:, idx+1] = (dt*self.diff_op + np.eye(len(u_pre)))@u_pre + dt*self.rhs  # from u at time t, gives u at t+dt
-            info = None
 
         if self.method == 'backward_euler':
             for idx, t in enumerate(self.time_steps[1:]):
